@@ -462,6 +462,36 @@ def check_sul(rep, ix):
     rep.ob('R-C20-SUL', f'{BF}:_rp66v1_bytes', 'the 60-byte identifier is accepted when printable', ident_ok, node=f, module=m)
 
 
+def pad_binding(rep, ix, rule):
+    """the padding settings reach the physical record reader under their own names (shared by C05 / C08 / C20)"""
+    m = ix.module(LF)
+    # the settings go on from FileRead to the physical record reader, and in the scan from scan_file_no_output to it: a setting
+    # handed to a parameter of another name silently swaps pad_modulo and pad_non_null (only the files that need padding notice)
+    PR = 'TotalDepth.LIS.core.PhysRec'
+    prinit = ix.get_func(PR, 'PhysRecRead.__init__')
+    prparams = [a.arg for a in prinit.args.args[1:]]
+    nsite = 0
+    for qual in ('FileRead.__init__', 'scan_file_no_output'):
+        h = ix.find_func(LF, qual)
+        if h is None:
+            continue
+        for c2 in common.calls_in(h):
+            if not _n(c2.func).endswith('PhysRecRead'):
+                continue
+            nsite += 1
+            bound = {}
+            for i, a in enumerate(c2.args):
+                if i < len(prparams):
+                    bound[prparams[i]] = _n(a)
+            for k in c2.keywords:
+                bound[k.arg] = _n(k.value)
+            bad = {k: v for k, v in bound.items() if k in ('pad_modulo', 'pad_non_null') and v in ('pad_modulo', 'pad_non_null') and v != k}
+            have = all(k in bound for k in ('pad_modulo', 'pad_non_null'))
+            rep.ob(rule, f'{LF}:{qual}', 'pad_modulo and pad_non_null reach the physical record reader under their own names', have and not bad,
+                   found=str({k: bound.get(k) for k in ('pad_modulo', 'pad_non_null')}), required='pad_modulo -> pad_modulo, pad_non_null -> pad_non_null', node=c2, module=m)
+    rep.ob(rule, f'{LF}:FileRead', 'constructions of the physical record reader found', nsite >= 1, found=str(nsite), module=m)
+
+
 def check_binding(rep, ix):
     """Star-argument calls: fields of the named tuple must land on parameters of the same name."""
     m = ix.module(LF)
@@ -486,31 +516,7 @@ def check_binding(rep, ix):
            node=c, module=m)
     ok = npos == 3 and _n(c.args[2]) == 'True'
     rep.ob('R-C20-BIND', site, 'the trial reader keeps going on non-conformant records (keepGoing=True)', ok, found=_n(c), node=c, module=m)
-    # the settings go on from FileRead to the physical record reader, and in the scan from scan_file_no_output to it: a setting
-    # handed to a parameter of another name silently swaps pad_modulo and pad_non_null (only the files that need padding notice)
-    PR = 'TotalDepth.LIS.core.PhysRec'
-    prinit = ix.get_func(PR, 'PhysRecRead.__init__')
-    prparams = [a.arg for a in prinit.args.args[1:]]
-    nsite = 0
-    for qual in ('FileRead.__init__', 'scan_file_no_output'):
-        h = ix.find_func(LF, qual)
-        if h is None:
-            continue
-        for c2 in common.calls_in(h):
-            if not _n(c2.func).endswith('PhysRecRead'):
-                continue
-            nsite += 1
-            bound = {}
-            for i, a in enumerate(c2.args):
-                if i < len(prparams):
-                    bound[prparams[i]] = _n(a)
-            for k in c2.keywords:
-                bound[k.arg] = _n(k.value)
-            bad = {k: v for k, v in bound.items() if k in ('pad_modulo', 'pad_non_null') and v in ('pad_modulo', 'pad_non_null') and v != k}
-            have = all(k in bound for k in ('pad_modulo', 'pad_non_null'))
-            rep.ob('R-C20-BIND', f'{LF}:{qual}', 'pad_modulo and pad_non_null reach the physical record reader under their own names', have and not bad,
-                   found=str({k: bound.get(k) for k in ('pad_modulo', 'pad_non_null')}), required='pad_modulo -> pad_modulo, pad_non_null -> pad_non_null', node=c2, module=m)
-    rep.ob('R-C20-BIND', f'{LF}:FileRead', 'constructions of the physical record reader found', nsite >= 1, found=str(nsite), module=m)
+    pad_binding(rep, ix, 'R-C20-BIND')
     b = ix.get_func(LF, 'best_physical_record_pad_settings')
     src = _n(b)
     ok = 'scan_file_with_different_padding(file_path_or_object,keep_going=True,pr_limit=pr_limit)' in src and 'ret_padding_options_with_max_records(pad_opts_to_prs)' in src
@@ -539,6 +545,9 @@ def run(rep, ix, tier):
     check_rewind(rep, ix)
     check_escape(rep, ix)
     check_invariant(rep, ix)
+    # the index of one file is built from nothing: state handed out by a helper and filled in by the constructor is per call
+    common.check_fresh_returns(rep, 'R-C20-FRESH', ix, 'TotalDepth.LIS.core.FileIndexer')
+    rep.floor('R-C20-FRESH', 1)
     check_sul(rep, ix)
     check_binding(rep, ix)
     check_dat_table(rep, ix)
